@@ -129,6 +129,9 @@ func ensureCanUseORConstraint(node ischema.Node) {
 	if ssl.HasUserTypes() {
 		panic(errs.ErrInvalidChildNodeTogetherWithOrRule.F())
 	}
+	// An "or" of built-in types would silently replace the type reference written
+	// in the example: the referenced type would be used but never looked up.
+	panic(errs.ErrCannotSpecifyOtherRulesWithTypeReference.F())
 }
 
 func checkBranchNodeWithOrConstraint(schemaNode ischema.Node, jsonNode ischema.BranchNode) {
